@@ -154,10 +154,11 @@ func (r *Run) sinkOpsRec(fd *FuncDecl, onPath map[*FuncDecl]bool, depth int) []s
 			pos    int
 			text   string
 			helper *FuncDecl
+			call   *ast.CallExpr
 		}
 		var items []item
 		for _, op := range u.SinkOps() {
-			items = append(items, item{int(op.Pos.Pos()), pfx + op.Text, nil})
+			items = append(items, item{int(op.Pos.Pos()), pfx + op.Text, nil, nil})
 		}
 		ast.Inspect(u.Body, func(n ast.Node) bool {
 			if lit, ok := n.(*ast.FuncLit); ok && lit != u.Lit {
@@ -165,7 +166,7 @@ func (r *Run) sinkOpsRec(fd *FuncDecl, onPath map[*FuncDecl]bool, depth int) []s
 			}
 			if c, ok := n.(*ast.CallExpr); ok {
 				if h := r.unexportedHelper(u.Info, c); h != nil {
-					items = append(items, item{int(c.Pos()), "", h})
+					items = append(items, item{int(c.Pos()), "", h, c})
 				}
 			}
 			return true
@@ -173,7 +174,17 @@ func (r *Run) sinkOpsRec(fd *FuncDecl, onPath map[*FuncDecl]bool, depth int) []s
 		sort.SliceStable(items, func(i, j int) bool { return items[i].pos < items[j].pos })
 		for _, it := range items {
 			if it.helper != nil {
-				out = append(out, r.sinkOpsRec(it.helper, onPath, depth+1)...)
+				ps := newParamSubst(u, it.call)
+				// operations of the helper run under the loops and conditions of the call site
+				sfx := ""
+				if lc := u.loopContext(it.call); len(lc) > 0 {
+					sfx = strings.Join(lc, " / ")
+				}
+				cc := u.condContext(it.call)
+				for _, op := range r.sinkOpsRec(it.helper, onPath, depth+1) {
+					op = ps.apply(op)
+					out = append(out, mergeContexts(op, sfx, cc))
+				}
 			} else {
 				out = append(out, it.text)
 			}
@@ -290,4 +301,42 @@ func (u *Unit) rangeOperandShape(l *ast.RangeStmt, deep bool) string {
 		}
 	}
 	return sh
+}
+
+// mergeContexts prefixes the loop (" @…") and condition (" ?…") context of an inlined operation with
+// the context of the call site.
+func mergeContexts(op, loops, conds string) string {
+	if loops == "" && conds == "" {
+		return op
+	}
+	base, lc, cc := op, "", ""
+	if i := strings.Index(base, " ?"); i >= 0 {
+		cc = base[i+2:]
+		base = base[:i]
+	}
+	if i := strings.Index(base, " @"); i >= 0 {
+		lc = base[i+2:]
+		base = base[:i]
+	}
+	if loops != "" {
+		if lc != "" {
+			lc = loops + " / " + lc
+		} else {
+			lc = loops
+		}
+	}
+	if conds != "" {
+		if cc != "" {
+			cc = conds + "," + cc
+		} else {
+			cc = conds
+		}
+	}
+	if lc != "" {
+		base += " @" + lc
+	}
+	if cc != "" {
+		base += " ?" + cc
+	}
+	return base
 }
